@@ -133,6 +133,8 @@ class Checker:
                 if isinstance(k, tuple):
                     # interface contract assumed at a call: every implementation in the module must satisfy it
                     its, mname = k
+                    if cs.ifaces.get(k) is not None and cs.ifaces[k].trusted:
+                        continue        # assumed, listed in the evidence
                     for recv in prog.implementors(its):
                         impl_fn = prog.method_fn(recv, mname)
                         if impl_fn and impl_fn in prog.funcs and prog.funcs[impl_fn].synthetic:
@@ -295,16 +297,18 @@ class Checker:
                   % (len(obs), short_fn(prog, fn), ', '.join(short_fn(prog, u) for u in unk), res, bound))
         # bounded stand-in for the part of the statement that is composed on paper from the proved contracts
         # (whole-input / whole-table claims): run on every check, labelled bounded, never counted as proved
-        fam_name = PROPERTY_BOUNDED.get(pid)
-        if fam_name:
+        fam_names = PROPERTY_BOUNDED.get(pid) or []
+        if isinstance(fam_names, str):
+            fam_names = [fam_names]
+        for fi, fam_name in enumerate(fam_names):
             cls = getattr(replay_mod, fam_name)
             pkgdir, src, bound = cls.bounded_source(prog, None)
             race = self.tier == 'thorough' and pid in RACE_PROPERTIES
-            res, out = replay_mod.run_go_test(self.repo, pkgdir, src, os.path.join(wd.path, 'bounded-prop'), timeout=600, race=race)
+            res, out = replay_mod.run_go_test(self.repo, pkgdir, src, os.path.join(wd.path, 'bounded-prop%d' % fi), timeout=600, race=race)
             self.bounded.append({'scope': 'composition of %s over whole inputs' % pid, 'bound': bound + (' (under the race detector)' if race else ''), 'result': res})
             if res != 'PASS':
                 os.makedirs(os.path.join(VERIF, 'replays'), exist_ok=True)
-                bpath = os.path.join(VERIF, 'replays', '%s-bounded-composition.json' % pid)
+                bpath = os.path.join(VERIF, 'replays', '%s-bounded-composition%s.json' % (pid, '' if fi == 0 else '-%d' % fi))
                 with open(bpath, 'w') as f:
                     json.dump({'property': pid, 'obligation': 'bounded check of the composed statement', 'bound': bound, 'test_pkg': pkgdir,
                                'test_source': src, 'test_result': res, 'test_output': out[-3000:], 'failing_input_found': res == 'FAIL'}, f, indent=1)
@@ -423,7 +427,7 @@ class Checker:
 
 
 RACE_PROPERTIES = ('C19',)
-PROPERTY_BOUNDED = {'C18': 'DiscoveryFamily', 'C19': 'EvaluatorFamily', 'C03': 'EvaluatorFamily', 'C08': 'FunctionFamily', 'C02': 'ParserFamily', 'C04': 'TokenizerFamily', 'C12': 'TokenizerFamily', 'C15': 'OptionsFamily', 'C14': 'QuoteFamily', 'C16': 'SymbolFamily'}
+PROPERTY_BOUNDED = {'C18': 'DiscoveryFamily', 'C19': ['EvaluatorFamily', 'MustacheFamily'], 'C03': ['EvaluatorFamily', 'MustacheFamily'], 'C08': 'FunctionFamily', 'C02': 'ParserFamily', 'C04': 'TokenizerFamily', 'C12': 'TokenizerFamily', 'C15': 'OptionsFamily', 'C14': 'QuoteFamily', 'C16': 'SymbolFamily'}
 
 ASSUMPTIONS = [
     'A0 trusted computing base: go/ssa front end, this engine, the SMT solvers',
